@@ -58,10 +58,10 @@ func c19Flavours() []c19Flavour {
 
 type c19NoLog struct{}
 
-func (c19NoLog) Enabled(_ctx context.Context, _ slog.Level) bool        { return false }
-func (c19NoLog) Handle(_ctx context.Context, _ slog.Record) error       { return nil }
-func (h c19NoLog) WithAttrs(_ []slog.Attr) slog.Handler      { return h }
-func (h c19NoLog) WithGroup(_ string) slog.Handler           { return h }
+func (c19NoLog) Enabled(_ctx context.Context, _ slog.Level) bool  { return false }
+func (c19NoLog) Handle(_ctx context.Context, _ slog.Record) error { return nil }
+func (h c19NoLog) WithAttrs(_ []slog.Attr) slog.Handler           { return h }
+func (h c19NoLog) WithGroup(_ string) slog.Handler                { return h }
 
 var c19Logger = slog.New(c19NoLog{})
 
@@ -162,7 +162,7 @@ func c19RecvEntry(f c19Flavour) *c19lib.Entry {
 
 type c19FlavourEntries struct {
 	f      c19Flavour
-	parse  []*c19lib.Entry          // one per raw command with a dedicated body (+ one unknown)
+	parse  []*c19lib.Entry            // one per raw command with a dedicated body (+ one unknown)
 	byBody map[string][]*c19lib.Entry // body type -> parse entries
 	direct map[string]*c19lib.Entry
 	recv   *c19lib.Entry
